@@ -269,4 +269,86 @@ theorem hs_root (al be : K) (hbe : be ≠ 0) : al + be * (-al / be) = 0 := by
   field_simp; ring
 
 
+/-! ## triangle (3-D) helpers -/
+
+/-- the scalar quantities of the triangle cast, as polynomials of the inputs:
+`d0 = n·dir`, `t0 = (o−a)·n`, `vs = ((o−a)×(c−a))·dir`, `ws = ((b−a)×(o−a))·dir`, with `n = (b−a)×(c−a)` -/
+def triN (a b c : V3 K) : V3 K := letI := fieldNum K sq; (b.sub a).cross (c.sub a)
+def triD (a b c : V3 K) (ray : Ray3 K) : K := letI := fieldNum K sq; (triN sq a b c).dot ray.d
+def triT (a b c : V3 K) (ray : Ray3 K) : K := letI := fieldNum K sq; (ray.o.sub a).dot (triN sq a b c)
+def triVs (a b c : V3 K) (ray : Ray3 K) : K := letI := fieldNum K sq; ((ray.o.sub a).cross (c.sub a)).dot ray.d
+def triWs (a b c : V3 K) (ray : Ray3 K) : K := letI := fieldNum K sq; ((b.sub a).cross (ray.o.sub a)).dot ray.d
+
+/-- if the ray point at `s` is the triangle point with coordinates `(u, v)`, then `s`, `u`, `v` are determined by the
+scalar quantities: `t0 + s·d0 = 0`, `vs = u·d0`, `ws = v·d0` (Cramer) -/
+theorem tri_mem_facts (a b c : V3 K) (ray : Ray3 K) (s u v : K) :
+    letI := fieldNum K sq
+    rayPt sq ray s = (a.add ((b.sub a).smul u)).add ((c.sub a).smul v) →
+    triT sq a b c ray + s * triD sq a b c ray = 0 ∧ triVs sq a b c ray = u * triD sq a b c ray ∧
+      triWs sq a b c ray = v * triD sq a b c ray := by
+  obtain ⟨ax, ay, az⟩ := a; obtain ⟨bx, b_y, bz⟩ := b; obtain ⟨cx, cy, cz⟩ := c
+  obtain ⟨⟨ox, oy, oz⟩, ⟨dx, dy, dz⟩⟩ := ray
+  simp only [rayPt, Ray3.pointAt, V3.add, V3.sub, V3.smul, V3.mk.injEq, triT, triD, triVs, triWs, triN, V3.cross, V3.dot]
+  rintro ⟨hx, hy, hz⟩
+  refine ⟨?_, ?_, ?_⟩
+  · linear_combination ((b_y - ay) * (cz - az) - (bz - az) * (cy - ay)) * hx + ((bz - az) * (cx - ax) - (bx - ax) * (cz - az)) * hy
+      + ((bx - ax) * (cy - ay) - (b_y - ay) * (cx - ax)) * hz
+  · linear_combination ((cy - ay) * dz - (cz - az) * dy) * hx + ((cz - az) * dx - (cx - ax) * dz) * hy
+      + ((cx - ax) * dy - (cy - ay) * dx) * hz
+  · linear_combination (dy * (bz - az) - dz * (b_y - ay)) * hx + (dz * (bx - ax) - dx * (bz - az)) * hy
+      + (dx * (b_y - ay) - dy * (bx - ax)) * hz
+
+/-- conversely (Cramer): the ray point at `s = −t0/d0` is `a + (vs/d0)(b−a) + (ws/d0)(c−a)`; stated without division -/
+theorem tri_point_identity (a b c : V3 K) (ray : Ray3 K) :
+    letI := fieldNum K sq
+    ((ray.o.sub a).smul (triD sq a b c ray)).sub (ray.d.smul (triT sq a b c ray))
+      = ((b.sub a).smul (triVs sq a b c ray)).add ((c.sub a).smul (triWs sq a b c ray)) := by
+  obtain ⟨ax, ay, az⟩ := a; obtain ⟨bx, b_y, bz⟩ := b; obtain ⟨cx, cy, cz⟩ := c
+  obtain ⟨⟨ox, oy, oz⟩, ⟨dx, dy, dz⟩⟩ := ray
+  simp only [V3.add, V3.sub, V3.smul, V3.mk.injEq, triT, triD, triVs, triWs, triN, V3.cross, V3.dot]
+  refine ⟨?_, ?_, ?_⟩ <;> ring
+
+theorem tri_e_v (a c : V3 K) (ray : Ray3 K) (b : V3 K) :
+    letI := fieldNum K sq
+    (c.sub a).dot ((ray.d.cross (ray.o.sub a)).neg) = -triVs sq a b c ray := by
+  simp only [triVs, V3.dot, V3.cross, V3.sub, V3.neg]; ring
+theorem tri_e_w (a b : V3 K) (ray : Ray3 K) (c : V3 K) :
+    letI := fieldNum K sq
+    (b.sub a).dot ((ray.d.cross (ray.o.sub a)).neg) = triWs sq a b c ray := by
+  simp only [triWs, V3.dot, V3.cross, V3.sub, V3.neg]; ring
+
+/-- the model in terms of the scalar quantities -/
+theorem tri_model_eq (a b c : V3 K) (ray : Ray3 K) :
+    letI := fieldNum K sq
+    localRayIntersectionWithTriangle a b c ray =
+      (let d0 := triD sq a b c ray; let t0 := triT sq a b c ray; let vs := triVs sq a b c ray; let ws := triWs sq a b c ray
+       let n := triN sq a b c
+       if d0 = 0 then none else
+       if (t0 < 0 ∧ d0 < 0) ∨ (0 < t0 ∧ 0 < d0) then none else
+       if ¬ d0 < 0 then
+         (if vs < 0 ∨ |d0| < vs then none else if ws < 0 ∨ |d0| < vs + ws then none else
+           some ({ toi := -t0 * (1 / |d0|), n := n.normalize.neg, fkind := 0, fidx := 1 },
+                 ⟨-(vs * (1 / |d0|)) - ws * (1 / |d0|) + 1, vs * (1 / |d0|), ws * (1 / |d0|)⟩))
+       else
+         (if -vs < 0 ∨ |d0| < -vs then none else if -ws < 0 ∨ |d0| < -vs + -ws then none else
+           some ({ toi := t0 * (1 / |d0|), n := n.normalize, fkind := 0, fidx := 0 },
+                 ⟨-(-vs * (1 / |d0|)) - -ws * (1 / |d0|) + 1, -vs * (1 / |d0|), -ws * (1 / |d0|)⟩))) := by
+  simp only [localRayIntersectionWithTriangle, tri_e_v sq a c ray b, tri_e_w sq a b ray c, fieldNum_nabs, neg_neg]
+  have hD : @V3.dot K (fieldNum K sq) (@V3.cross K (fieldNum K sq) (@V3.sub K (fieldNum K sq) b a) (@V3.sub K (fieldNum K sq) c a)) ray.d
+      = triD sq a b c ray := rfl
+  have hT : @V3.dot K (fieldNum K sq) (@V3.sub K (fieldNum K sq) ray.o a) (@V3.cross K (fieldNum K sq) (@V3.sub K (fieldNum K sq) b a) (@V3.sub K (fieldNum K sq) c a))
+      = triT sq a b c ray := rfl
+  have hN : (@V3.cross K (fieldNum K sq) (@V3.sub K (fieldNum K sq) b a) (@V3.sub K (fieldNum K sq) c a)) = triN sq a b c := rfl
+  rw [hD, hT, hN]
+  by_cases h0 : triD sq a b c ray = 0
+  · have : @neq K (fieldNum K sq) (triD sq a b c ray) 0 = true := (neq_zero_iff sq _).2 h0
+    rw [if_pos this]; simp [h0]
+  · have : @neq K (fieldNum K sq) (triD sq a b c ray) 0 = false := by
+      rw [Bool.eq_false_iff]; exact fun h => h0 ((neq_zero_iff sq _).1 h)
+    simp only [this, h0, if_false, Bool.false_eq_true]
+    by_cases hneg : triD sq a b c ray < 0
+    · simp [hneg]
+    · simp [hneg]
+
+
 end C04
